@@ -20,3 +20,17 @@ Theorem C01_asa_acl_unchanged_only_if_equal :
     diff_asa m = [] -> listA m = listB m.
 Proof. exact asa_acl_unchanged_iff_proved. Qed.
 Print Assumptions C01_asa_acl_unchanged_only_if_equal.
+
+(* Routes of one VRF / address family (ASA and IOS share cisco.diffRoutes): for every edit script between route
+   lists with at most one route per destination, every command (add, delete, replacement of the next hop in one
+   transaction) is accepted by a routing table that allows one route per destination, after any number k of commands
+   every destination routed before and after still has a route, and after the last command the table holds exactly
+   the target routes. *)
+From NA Require Import Cisco.Routes Cisco.RoutesProofs.
+Theorem C01_cisco_routes_converge_stepwise :
+  forall m : Routes.script, NoDup (map dst (Routes.listA m)) -> NoDup (map dst (Routes.listB m)) ->
+  forall k, exists tk, rexec_all (Routes.listA m) (firstn k (diff_croutes m)) = Some tk /\
+    (forall d, has_dst (Routes.listA m) d = true -> has_dst (Routes.listB m) d = true -> has_dst tk d = true) /\
+    (length (diff_croutes m) <= k -> forall r, In r tk <-> In r (Routes.listB m)).
+Proof. exact croutes_conv_stepwise. Qed.
+Print Assumptions C01_cisco_routes_converge_stepwise.
